@@ -1,6 +1,28 @@
-(* Ops/C13.v — protocol entry points for property C13 (stub until the model is built). *)
-From Coq Require Import List String.
-From PrefVerif Require Import Lib.Val.
+(* Ops/C13.v — protocol entry points for property C13 (single-peaked on a tree). *)
+From Coq Require Import List NArith String.
+From PrefVerif Require Import Lib.Val Model.Tree.
 Import ListNotations.
+Open Scope string_scope.
 
-Definition ops : optable := [].
+Definition d_alts (v : val) : list N := dlist dN v.
+Definition d_profile (v : val) : list (list N) := dlist (dlist dN) v.
+Definition d_edges (v : val) : list edge := dlist (dpair dN dN) v.
+
+(* payload (alts profile) -> bool : the reference decider *)
+Definition op_decide (v : val) : val :=
+  ebool (spt_decide (d_alts (dnth 0 v)) (d_profile (dnth 1 v))).
+(* same, through the prefix-by-prefix checker (small inputs only) *)
+Definition op_decide_slow (v : val) : val :=
+  ebool (spt_decide_slow (d_alts (dnth 0 v)) (d_profile (dnth 1 v))).
+(* payload (alts profile edges) -> bool : witness checker *)
+Definition op_check (v : val) : val :=
+  ebool (spt_checkf (d_alts (dnth 0 v)) (d_profile (dnth 1 v)) (d_edges (dnth 2 v))).
+Definition op_check_slow (v : val) : val :=
+  ebool (spt_check (d_alts (dnth 0 v)) (d_profile (dnth 1 v)) (d_edges (dnth 2 v))).
+(* payload (alts edges) -> bool : spanning tree of alts? *)
+Definition op_tree (v : val) : val :=
+  ebool (tree_check (d_alts (dnth 0 v)) (d_edges (dnth 1 v))).
+
+Definition ops : optable :=
+  [ ("c13.decide", op_decide); ("c13.decide_slow", op_decide_slow);
+    ("c13.check", op_check); ("c13.check_slow", op_check_slow); ("c13.tree", op_tree) ].
